@@ -17,8 +17,18 @@ func zzC15_faults() {
 	if useDefault {
 		mux = DefaultServeMux
 	}
+	// (the number of temporary accept errors is chosen up front so that the CloseNotify variant below
+	// can be limited to the runs without them)
+	ntemp := vLen("temperrs", 0, vParam("TEMP", 2))
+	// the handler of the faulty connection may have asked for the close notification (sm.Client's
+	// watchdog does): the connection's end then also runs the notification path
+	wantCloseNotify := ntemp == 0 && zzFlag("handlerRequestsCloseNotify")
 	mux.HandleFunc("ALL", func(c Conn, m *Message) {
 		name := c.RemoteAddr().String()
+		if wantCloseNotify && name == "A" {
+			wantCloseNotify = false
+			_ = c.(CloseNotifier).CloseNotify()
+		}
 		if m.Header.HopByHopID == 0xbad {
 			panic("zz: handler fault")
 		}
@@ -64,7 +74,6 @@ func zzC15_faults() {
 	}
 	vQuiesce()
 	// temporary accept errors
-	ntemp := vLen("temperrs", 0, vParam("TEMP", 2))
 	isTimeout := ntemp > 0 && zzFlag("acceptErrIsTimeout")
 	for i := 0; i < ntemp; i++ {
 		l.ch <- zzAccept{err: zzTempErr{timeout: isTimeout}}
